@@ -142,10 +142,8 @@ func VerifC05Search() {
 	orig := append([]uint64(nil), h...)
 	entries := getCleanSet(h)
 	sortWithCompare(entries, verifC05Cmp(entries))
-	reads := 0
 	x := verifU64("x")
 	got, err := searchEytzinger(0, len(entries), x, func(i int) (uint64, error) {
-		reads++
 		return entries[i], nil
 	})
 	in := false
@@ -161,11 +159,5 @@ func VerifC05Search() {
 		verifAssert(!in, "C05.search: an added hash is not found in its own bucket (false negative)")
 		verifReach("notfound")
 	}
-	// the descent reads at most floor(log2 n)+1 elements
-	lim := 0
-	for m := len(entries); m > 0; m >>= 1 {
-		lim++
-	}
-	verifAssert(reads <= lim, "C05.search: more reads than the tree depth")
 	verifReach("end")
 }
